@@ -9,7 +9,7 @@ from ..engine import VERIF, load_json
 from ..facts import site
 from ..linear import analyse
 from ..symx import all_calls, cshow, paths_of, tshow
-from ..terms import is_call, same, subterms
+from ..terms import is_call, opt_polarity, same, subterms
 
 STATE_FNS = ["ipp::parser::ParserState::parse_value", "ipp::parser::ParserState::parse_delimiter", "ipp::parser::ParserState::add_last_attribute",
              "ipp::parser::list_or_value"]
@@ -71,15 +71,17 @@ def r_linear(run, F, rule="R-LINEAR"):
             if r["sanctioned"]:
                 for u in r.get("used", []):
                     if u.startswith("exception: "):
-                        cond, edge = u[len("exception: "):].rsplit(" -> ", 1)
-                        k = ex.get((r["place"], cond, edge))
+                        pc, edge = u[len("exception: "):].rsplit(" -> ", 1)
+                        eplace, cond = pc.split("|", 1)
+                        k = ex.get((eplace, cond, edge))
                         if k:
                             run.excepted(k[0])
                 run.ob(rule, "%s: drop of `%s` never loses a received value" % (fn.split("::")[-1], r["place"][:60]), True, r["why"][:300], st)
             else:
                 run.ob(rule, "%s: drop of `%s` never loses a received value" % (fn.split("::")[-1], r["place"][:60]), False,
-                       "`%s` (%s) is dropped on a path that returns success: a value received from the wire is silently discarded. Path: %s" % (
-                           r["place"], r["pty"][:60], "; ".join(r["path"])), st, key="%s|%s|%s" % (rule, fn, r["place"][:60]))
+                       "`%s` (%s) is dropped on a path that returns success: a value received from the wire is silently discarded. Path: %s  "
+                       "[exception key form: R-LINEAR|%s|<%s>|<condition>|<edge>]" % (r["place"], r["pty"][:60], "; ".join(r["path"]), fn, r["pty"]),
+                       st, key="%s|%s|<%s>" % (rule, fn, r["pty"][:60]))
         run.note("%s: product graph %s" % (fn, stats))
     return n
 
@@ -92,7 +94,7 @@ def r_state_order(run, F, rule="R-ORDERED"):
         return
     cg = ("field", ("var", "self"), "current_group")
     for p in paths_of(b):
-        if p.kind == "try":
+        if p.kind == "try" or (p.ret[0] == "ctor" and p.ret[1].endswith("::Err")):
             continue
         names = [t[1] for t in p.trace if is_call(t)]
 
@@ -102,22 +104,28 @@ def r_state_order(run, F, rule="R-ORDERED"):
                     return i
             return None
         i_last = idx(lambda t: t[1] == "ipp::parser::ParserState::add_last_attribute")
-        i_take = idx(lambda t: t[1] == "std::option::Option::<T>::take" and t[2][0] == cg)
+        TAKE = ("std::option::Option::<T>::take", "std::option::Option::<T>::replace", "std::mem::replace", "std::mem::take")
+        i_take = idx(lambda t: t[1] in TAKE and t[2][0] == cg)
         i_push = idx(lambda t: t[1] == "std::vec::Vec::<T, A>::push" and is_call(t[2][0], "ipp::attribute::IppAttributes::groups_mut"))
-        i_new = idx(lambda t: t[1] == "<assign>" and "current_group" in str(t[2][0][1]))
-        taken_some = any(c[0] == "match" and is_call(c[1], "std::option::Option::<T>::take") and c[3] is True for c in p.conds)
-        ok = i_last is not None and i_take is not None and i_new is not None and i_last < i_take < i_new and (not taken_some or (i_push is not None and i_take < i_push < i_new))
+        i_new = idx(lambda t: (t[1] == "<assign>" and "current_group" in str(t[2][0][1])) or (t[1] in TAKE[1:3] and t[2][0] == cg))
+        taken_some = any(c[0] == "match" and is_call(c[1], *TAKE) and opt_polarity(c) is True for c in p.conds)
+        # the old group is taken out (take, or replace by the new one), appended, and the new one installed - the pending attribute first
+        ok = i_last is not None and i_take is not None and i_new is not None and i_last < i_take <= i_new and (not taken_some or (i_push is not None and i_take < i_push))
         run.ob(rule, "parse_delimiter: pending attribute closed, then group appended, then new group opened [%s]" % ("group open" if taken_some else "no group"), ok,
                "call order on this path: %s" % [n.split("::")[-1] for n in names], site(b), key="%s|parse_delimiter|order" % rule)
         if taken_some and i_push is not None:
             t = p.trace[i_push]
             pushed = t[2][1]
-            run.ob(rule, "parse_delimiter: the closed group itself is appended", pushed[0] == "proj" and is_call(pushed[1], "std::option::Option::<T>::take"),
+            run.ob(rule, "parse_delimiter: the closed group itself is appended", pushed[0] == "proj" and is_call(pushed[1], *TAKE) and pushed[1][2][0] == cg,
                    tshow(pushed)[:80], site(b), key="%s|parse_delimiter|pushed" % rule)
         asg = p.trace[i_new] if i_new is not None else None
         if asg is not None:
             v = asg[2][1]
-            ok2 = v[0] == "ctor" and v[1].endswith("::Some") and is_call(v[2][0], "ipp::attribute::IppAttributeGroup::new") and v[2][0][2][0][0] in ("ok?",)
+            if v[0] != "ctor" and is_call(v, "ipp::attribute::IppAttributeGroup::new"):
+                v = ("ctor", "std::option::Option::Some", [v])       # Option::replace(new) installs Some(new)
+            dl = v[2][0][2][0] if (v[0] == "ctor" and v[1].endswith("::Some") and is_call(v[2][0], "ipp::attribute::IppAttributeGroup::new")) else None
+            ok2 = dl is not None and ((dl[0] == "ok?") or (dl[0] == "proj" and str(dl[2]).startswith("Some.") and is_call(dl[1]))) and \
+                any(is_call(x) and x[1].endswith("::from_u8") for x in subterms(dl))
             run.ob(rule, "parse_delimiter: new current group has the decoded delimiter", ok2, tshow(v)[:100], site(b), key="%s|parse_delimiter|new-group" % rule)
     # list_or_value: one value -> scalar, otherwise the list as a set
     lb = F.body("ipp::parser::list_or_value")
